@@ -157,6 +157,12 @@ def run_case(c: dict) -> CaseResult:
         info["state"] = env.conns[-1].connection_state.name
 
     env.loop.sim_at(0, lambda: env.spawn("main", flow()))
+    if c.get("disc_pending"):
+        # somebody calls disconnect() while the hello / login answer is still on its way (the device takes a second)
+        # and gives up on it again before the answer arrives: the verdict on that answer is the same as ever
+        dev.latency = 1.0
+        env.loop.sim_at(0.3, lambda: env.spawn("ldisc", cli.disconnect()))
+        env.loop.sim_at(0.5, lambda: env.cancel("ldisc"))
     env.loop.horizon = START + 200.0
     try:
         env.run()
@@ -269,6 +275,14 @@ def strategy(tier):
 
 
 def enumerated(tier):
+    # an abandoned disconnect() while the answer is on its way, every single-reason refusal and the accepted case
+    for noise in (False, True):
+        for login in (False, True):
+            for major, an, ip in ((1, "dev", False), (3, "dev", False), (1, "other", False), (1, "dev", True)):
+                c = {"noise": noise, "login": login, "password": None, "expected": "dev", "major": major, "minor": 10, "api_name": an, "invalid_password": ip, "order": "hc", "disc_pending": True}
+                if noise:
+                    c["noise_name"] = None
+                yield c
     # expected names of every shape (ending in letters of ".local", with dots and hyphens): equal -> accepted, one
     # character less / a suffix more -> refused
     for exp in ("patio", "hall", "studio", "garage-local", "dev.local", "coca-cola", "plug"):
